@@ -138,6 +138,7 @@ func (cfg *Config) applyOverrides() error {
 		}
 		return names[i] < names[j]
 	})
+	var firstErr error
 	for _, name := range names {
 		value := cfg.overrides[name]
 		parts := strings.Split(name, ".")
@@ -147,7 +148,12 @@ func (cfg *Config) applyOverrides() error {
 		}
 		valueObj := object.FromGoType(value)
 		if valueObj == nil || valueObj.Type() == object.ERROR {
-			return fmt.Errorf("init error: invalid value for global override: %v", value)
+			// Report the first invalid value, but do not drop the overrides that
+			// come after it: they replace objects the host wants out of reach
+			if firstErr == nil {
+				firstErr = fmt.Errorf("init error: invalid value for global override: %v", value)
+			}
+			continue
 		}
 		moduleName := parts[0]
 		nestedModulePath := parts[1 : len(parts)-1]
@@ -160,7 +166,7 @@ func (cfg *Config) applyOverrides() error {
 			}
 		}
 	}
-	return nil
+	return firstErr
 }
 
 // CompilerOpts returns compiler options derived from this configuration.
